@@ -196,8 +196,12 @@ PROPS = {
         'position moves past it; no other operation moves the position; L05: along any history (including after cloning) the '
         'ids returned are strictly increasing and absent when returned.',
         'next_id-fresh, next_id-alloc, *-alloc of add/bind/put/data/empty/clone, lemmas L05 and L19-next-id-determined.',
-        ['merge() and Script use the allocator by composition only (not verified)',
-         'contract of Iterator::find on emap::Iter is trusted (shim)']),
+        ['Script uses the allocator by composition only (not verified)',
+         'contract of Iterator::find on emap::Iter is trusted (shim)'],
+        extra=dict(units=['U_ops', 'U_model', 'U_mergelog'],
+                   explanation='next_id-fresh, next_id-alloc, *-alloc of add/bind/put/data/empty/clone, lemmas L05 and L19-next-id-determined; '
+                               'merge(): U_mergelog/merge_rec-own-calls-of-a-kid-step - a vertex is added only under the id next_id() has '
+                               'just returned, with no call on the graph in between (so it is absent by next_id\'s contract)')),
     'C06': graph_prop(
         'C06',
         'contract-based deductive verification (Verus): data() frees the slot (list empty, counter 0), bind() takes the least '
